@@ -358,6 +358,8 @@ def part_fox(row, mode):
                 raise Bad("fox_word_derivative", "fox_word_derivative(%r, %r) = %r, specified %r" % (g, s, got, want))
             n += 1
     # relators: rows of the cocycle matrix are the differentials; they annihilate the coboundary matrix
+    if not rels:      # the cocycle matrix of an empty relator list is not defined by the library
+        return n
     try:
         coc = np.asarray(rep.cocycle_matrix())
         cob = np.asarray(rep.coboundary_matrix())
